@@ -452,6 +452,26 @@ impl C11 {
         catch(move || Schedule::new(infos, sel))
     }
 
+    /// The same list through the wire format: a `ValidatorSchedule` message listing the validators in the given order
+    /// (a hand-written genesis, another encoder, a peer), decoded by the real `ProtoFmt::read`.
+    fn build_wire(&self, vals: &[(usize, u64, bool)], s: &Sched) -> Result<anyhow::Result<Schedule>, String> {
+        use zksync_consensus_roles::proto::validator as vproto;
+        use zksync_protobuf::ProtoFmt as _;
+        let sel = LeaderSelection {
+            frequency: s.freq,
+            mode: if s.weighted { LeaderSelectionMode::Weighted } else { LeaderSelectionMode::RoundRobin },
+        };
+        let msg = vproto::ValidatorSchedule {
+            validators: vals
+                .iter()
+                .map(|v| ValidatorInfo { key: self.keys[v.0 % NKEYS].clone(), weight: v.1, leader: v.2 }.build())
+                .collect(),
+            leader_selection: Some(sel.build()),
+        };
+        let bytes = prost::Message::encode_to_vec(&msg);
+        catch(move || zksync_protobuf::decode::<Schedule>(&bytes))
+    }
+
     fn id_of(&self, k: &validator::PublicKey) -> Option<usize> {
         self.keys.binary_search(k).ok()
     }
@@ -466,6 +486,20 @@ impl C11 {
             }
         };
         let valid = s.valid();
+        // the decode path must give the same verdict and the same schedule as the constructor, for this listing
+        match self.build_wire(&s.vals, s) {
+            Ok(w) => {
+                if w.is_ok() != r.is_ok() {
+                    out.oracle_fail("new/wire-verdict", &format!("Schedule::new accepts = {}, decoding the same listing accepts = {}", r.is_ok(), w.is_ok()), op.clone());
+                } else if let (Ok(a), Ok(b)) = (&r, &w) {
+                    let ids = |x: &Schedule| -> Vec<Option<usize>> { x.iter().map(|v| self.id_of(&v.key)).collect() };
+                    if a != b || ids(a) != ids(b) || a.leaders() != b.leaders() || a.total_weight() != b.total_weight() {
+                        out.oracle_fail("new/wire-differs", "the schedule decoded from a listing differs from the one constructed from the same listing (order of validators, leaders or total weight)", op.clone());
+                    }
+                }
+            }
+            Err(site) => out.oracle_fail(&site, "decoding a ValidatorSchedule panicked", op.clone()),
+        }
         match &r {
             Ok(sch) => {
                 if !valid {
@@ -616,11 +650,13 @@ impl Prop for C11 {
                 };
                 // determinism across listings: every other listing of the same validators elects the same leader
                 for l in s.listings() {
-                    if let Ok(Ok(sch2)) = self.build(&l, &s) {
-                        match catch(|| sch2.view_leader(ViewNumber(view))) {
-                            Ok(k) if self.id_of(&k) == Some(id) => {}
-                            Ok(_) => out.oracle_fail("leader/order-dependent", "a permuted listing elects a different leader", op.clone()),
-                            Err(site) => out.oracle_fail(&site, "view_leader panicked on a permuted listing", op.clone()),
+                    for (how, built) in [("constructed", self.build(&l, &s)), ("decoded", self.build_wire(&l, &s))] {
+                        if let Ok(Ok(sch2)) = built {
+                            match catch(|| sch2.view_leader(ViewNumber(view))) {
+                                Ok(k) if self.id_of(&k) == Some(id) => {}
+                                Ok(_) => out.oracle_fail("leader/order-dependent", &format!("a permuted listing ({how}) elects a different leader"), op.clone()),
+                                Err(site) => out.oracle_fail(&site, "view_leader panicked on a permuted listing", op.clone()),
+                            }
                         }
                     }
                 }
